@@ -269,8 +269,22 @@ def parseU64 (s : String) : Option Nat :=
   let v := natOfDigits 10 s
   if v < 18446744073709551616 then some v else none
 
+/-- `nesting_depth`: open parentheses plus the current run of prefix operators, maximised over
+the token stream up to the first `eof` -/
+def nestingDepth : List Token → Nat → Nat → Nat → Nat
+  | [], _, _, mx => mx
+  | .eof :: _, _, _, mx => mx
+  | .lpar :: r, depth, _, mx => nestingDepth r (depth + 1) 0 (max mx (depth + 1))
+  | .rpar :: r, depth, _, mx => nestingDepth r (depth - 1) 0 (max mx (depth - 1))
+  | .plus :: r, depth, run, mx => nestingDepth r depth (run + 1) (max mx (depth + run + 1))
+  | .minus :: r, depth, run, mx => nestingDepth r depth (run + 1) (max mx (depth + run + 1))
+  | _ :: r, depth, _, mx => nestingDepth r depth 0 (max mx depth)
+
+def maxNesting : Nat := 128
+
 /-- `parse_query`; `isTz` decides `is_valid_timezone` (chrono-tz's table is not modelled) -/
 def parseQuery (isTz : String → Bool) (ts : List Token) : Query :=
+  if nestingDepth ts 0 0 0 > maxNesting then .error "Expression is nested too deeply" else
   let fuel := parseFuel ts
   let special : Option Query :=
     match ts with
